@@ -415,8 +415,11 @@ EXTRA_BASES = {"verif_long": [["x"], ["sqrt_abs"], ["+", "*"]],
                "verif_long2": [["x", "a"], ["log10_abs", "sqrt_abs"], ["+", "*"]],
                # unary names of lengths 6 and 8 and no binary operator: at 8 nodes the 256 printed tree lines take every length from
                # 68 to 83 characters, in particular exactly 78, 79, 80 and 81 (the boundary of the pretty-printer's width logic)
-               "verif_widths": [["x", "a"], ["square", "sqrt_abs"], []]}
-LONG_LABEL_JOBS = [("verif_long", 6), ("verif_long2", 5), ("verif_widths", 8)]
+               "verif_widths": [["x", "a"], ["square", "sqrt_abs"], []],
+               # the parameter placeholder is not the LAST nullary label (every shipped basis has ["x", "a"]): the last function of a
+               # shape then carries no parameter, the first carries all of them -- the per-shape parameter list must not depend on that
+               "verif_afirst": [["a", "x"], ["inv"], ["+", "*", "pow"]]}
+LONG_LABEL_JOBS = [("verif_long", 6), ("verif_long2", 5), ("verif_widths", 8), ("verif_afirst", 3), ("verif_afirst", 4)]
 
 
 def lib_jobs(ctx):
